@@ -80,6 +80,11 @@ def check(prog: Program, tier: str) -> Result:
 
     fi, eng, fin = _straight(prog, q, H())
     res.analysed(q)
+    from ..model import unpinned_helper_calls
+
+    hidden = unpinned_helper_calls(prog, fi, fi.node)
+    if hidden:
+        raise AnalysisError(f"{q}: part of the conversion is computed by {sorted(set(hidden))}, which the load-time inliner could not expand: the identities cannot be read off this function")
     fin = [f for f in fin if f.exit and f.exit[0] == "return"]
     if not fin:
         raise AnalysisError(f"{q}: no returning path")
